@@ -1,0 +1,52 @@
+//go:build verif
+
+package binarylog
+
+// Contracts checked by /verif (contract-based deductive verification).
+// This file is comment-only; it is compiled only with -tags=verif.
+
+//@ import binlogpb "google.golang.org/grpc/binarylog/grpc_binarylog_v1"
+
+// size an entry contributes to the header limit
+//@ spec func entrySize(e *binlogpb.MetadataEntry) Z {
+//@   if e.Key == "grpc-trace-bin" { return 0 }
+//@   return Z(len(e.Key)) + Z(len(e.Value))
+//@ }
+
+//@ func (*TruncatingMethodLogger).truncateMetadata
+//@   prop C55
+//@   nopanic
+//@   modifies mdPb.Entry
+//@   requires ml != nil && mdPb != nil
+//@   requires forall(func(i int) bool { return implies(0 <= i && i < len(mdPb.Entry), mdPb.Entry[i] != nil) })
+//@   loop 1 invariant 0 <= index && index <= len(mdPb.Entry)
+//@   loop 1 invariant psum(entrySize, mdPb.Entry, index) + Z(bytesLimit) == Z(ml.headerMaxLen)
+//@   loop 1 decreases Z(len(mdPb.Entry)) - Z(index)
+//@   ensures  implies(ml.headerMaxLen == maxUInt, !truncated && sameslice(mdPb.Entry, old(mdPb.Entry)))
+//@   ensures  len(mdPb.Entry) <= len(old(mdPb.Entry)) && sameslice(mdPb.Entry, old(mdPb.Entry)[:len(mdPb.Entry)])
+//@   ensures  implies(ml.headerMaxLen != maxUInt, psum(entrySize, old(mdPb.Entry), len(mdPb.Entry)) <= Z(ml.headerMaxLen))
+//@   ensures  implies(truncated, psum(entrySize, old(mdPb.Entry), len(mdPb.Entry)+1) > Z(ml.headerMaxLen))
+//@   ensures  iff(truncated, len(mdPb.Entry) < len(old(mdPb.Entry)))
+
+//@ func (*TruncatingMethodLogger).truncateMessage
+//@   prop C55
+//@   nopanic
+//@   modifies msgPb.Data
+//@   requires ml != nil && msgPb != nil
+//@   ensures  iff(truncated, ml.messageMaxLen != maxUInt && Z(len(old(msgPb.Data))) > Z(ml.messageMaxLen))
+//@   ensures  implies(!truncated, sameslice(msgPb.Data, old(msgPb.Data)))
+//@   ensures  implies(truncated, Z(len(msgPb.Data)) == Z(ml.messageMaxLen) && sameslice(msgPb.Data, old(msgPb.Data)[:len(msgPb.Data)]))
+
+//@ func metadataKeyOmit
+//@   prop C55
+//@   pure
+//@   nopanic
+//@   ensures result == (key != "grpc-trace-bin" && (key == "lb-token" || key == ":path" || key == ":authority" || key == "content-encoding" || key == "content-type" || key == "user-agent" || key == "te" || (len(key) >= 5 && key[:5] == "grpc-")))
+
+// An entry is appended to the log record only for a key that is not omitted,
+// and it carries that key. (The quantified statement over the finished record
+// needs append/heap reasoning the solvers do not finish; see DESIGN.md.)
+//@ func mdToMetadataProto
+//@   prop C55
+//@   assert at call append#1 !metadataKeyOmit(k)
+//@   assert at call append#1 len(arg1) == 1 && arg1[0] != nil && arg1[0].Key == k
